@@ -116,6 +116,9 @@ IM(c) == c \o "_im"
     [] g = "cvcount" -> cvcount
 #! FAITHFUL
 , "cvcount"
+#! PINNED
+ @@ ("fiber_cond_wait:count:RMW" :> {"cw0"}) @@ ("fiber_cond_signal:count:RMW" :> {"cs1", "cs2"}) @@ ("fiber_cond_broadcast:count:XCHG" :> {"cb1"})
+ @@ ("fiber_cond_broadcast:count:R" :> {}) @@ ("fiber_cond_signal:count:R" :> {}) @@ ("fiber_cond_wait:count:R" :> {})
 #! FNPROC
 ,
            fiber_cond_wait |-> {"cond_wait"},
